@@ -73,7 +73,8 @@ def lib_net6(s):
     na = _netaddr()
     return _truth(lambda: (na.IPNetwork(s, version=6).cidr, True)[1])
 
-CONTRACT = {'True', 'False', 'EXN:ValueError', 'EXN:TypeError', 'EXN:AddrFormatError'}
+CONTRACT_ATON = {'True', 'False', 'EXN:ValueError', 'EXN:AddrFormatError'}            # aton_contract (Model/C11_Spec.v)
+CONTRACT_NET = CONTRACT_ATON | {'EXN:TypeError'}                                     # net_contract
 
 def _value(c):
     k = c['kind']
@@ -192,7 +193,7 @@ def oracle(c, out):
         return None
     if op in ('ip', 'ipv4_ns'):
         la = lib_aton(s)
-        if la not in CONTRACT: return 'library contract: netaddr.valid_ipv4(%r, INET_ATON) -> %s' % (s, la)
+        if la not in CONTRACT_ATON: return 'library contract: netaddr.valid_ipv4(%r, INET_ATON) -> %s' % (s, la)
         if ref_ipv4(s) or (op == 'ip' and ref_ipv6(s)):
             return demand(True, 'it is a well-formed address (ipaddress)')
         if s == '' or (sock_ok('aton', s) is not True and not (op == 'ip' and ref_ipv6(s))):
@@ -200,7 +201,7 @@ def oracle(c, out):
         return None
     if op == 'cidr':
         ln = lib_net(s)
-        if ln not in CONTRACT: return 'library contract: netaddr.IPNetwork(%r) -> %s' % (s, ln)
+        if ln not in CONTRACT_NET: return 'library contract: netaddr.IPNetwork(%r) -> %s' % (s, ln)
         seg = s.split('/')
         if len(seg) == 1: return demand(False, 'the prefix is missing')
         if len(seg) > 2: return demand(False, 'it has more than one "/"')
@@ -217,7 +218,7 @@ def oracle(c, out):
         return demand(d, 'the standard library reading of the prefix says %s' % d)
     if op == 'cidr6':
         ln = lib_net6(s)
-        if ln not in CONTRACT: return 'library contract: netaddr.IPNetwork(%r, version=6).cidr -> %s' % (s, ln)
+        if ln not in CONTRACT_NET: return 'library contract: netaddr.IPNetwork(%r, version=6).cidr -> %s' % (s, ln)
         seg = s.split('/')
         if len(seg) > 2: return demand(False, 'it has more than one "/"')
         A = seg[0]
